@@ -339,6 +339,14 @@ def main_wrap(fn):
     except Infra as e:
         print("INFRA: %s" % e)
         sys.exit(2)
+    except SystemExit:
+        raise
+    except BaseException:
+        # a bug in the machinery is an infrastructure problem (exit 2), never a verdict
+        import traceback
+        traceback.print_exc()
+        print("INFRA: the check itself crashed (see the traceback above)")
+        sys.exit(2)
     sys.exit(rc)
 
 
